@@ -441,8 +441,15 @@ func c09SchedScenarios(tier string) []c09Params {
 		big = append(big, w(fmt.Sprintf("SET kb id%02d POINT 2 %d", i, i)))
 	}
 	big = append(big, w("SET kc a POINT 3 3"), w("SET kc b POINT 3 4"), w("SET kd zz POINT 4 4"))
+	var tenKeys [][]string
+	for i := 0; i < 11; i++ {
+		tenKeys = append(tenKeys, w(fmt.Sprintf("SET c%02d a POINT 1 %d", i, i)), w(fmt.Sprintf("SET c%02d b POINT 2 %d", i, i)))
+	}
 	scs := []c09Params{
 		{Name: "drop-collection-between-its-id-batches", Pre: big, Writers: [][][]string{one("DROP kb")}},
+		// the rewrite takes collection keys eight at a time: the last key of a batch vanishes before the next batch is taken
+		{QuickBound: 1, Name: "drop-last-collection-of-a-key-batch", Pre: tenKeys, Writers: [][][]string{one("DROP c07")}},
+		{QuickBound: 1, Name: "rename-last-collection-of-a-key-batch", Pre: tenKeys, Writers: [][][]string{one("RENAME c07 zz")}},
 		{QuickBound: 1, Name: "second-aofshrink-while-running", Pre: pre, Writers: [][][]string{one("AOFSHRINK", "SET ka z POINT 9 9", "DEL kb b")}},
 		S("fset-then-del-ahead-of-cursor", one("FSET kc a f 3", "DEL kc a")),
 		S("set-new-key-before-cursor", one("SET k0 n POINT 9 9")),
